@@ -139,6 +139,12 @@ def run_engine(ctx, mon, labels, opts, tag, first=None):
         return
     rec = recs[0]
     eo = rec["options"]
+    given = dict(first or {})
+    given.update(opts)
+    lost = {k: [repr(v), repr(eo.get(k, "<absent>"))] for k, v in given.items() if eo.get(k, "<absent>") != v}
+    if lost:
+        ctx.judge("engine", VIOLATED, case, finding={"reason": "the engine does not hold the options it was given", "given_vs_held": lost}, key="engine-options-lost")
+        return
     mn, mx = eo.get("minPos", 0), eo.get("maxPos")
     lw = (mx - mn) if (mn is not None and mx is not None) else None
     judge_one(ctx, rec["labels"], rec["distribute"]["layers"], eo.get("algorithm"), lw, eo.get("density"), eo.get("nodeSpacing"), eo.get("stubWidth"), case, force=rec["force"])
